@@ -8,7 +8,7 @@ import Mathlib.Data.List.Nodup
 
 * `C07_text_repr_roundtrip`      : `pyEval (textRepr s) = s` for every str / bytes, multiline setting, `isprintable`
   (`pyEval_pyRepr`: the same for `repr` itself — the non-multiline branch)
-* `C07_str_table_ok`, `C07_str_total` : `str(matcher)` is total (table of `__str__` resolutions read from the tree)
+* `C07_str_table_ok`, `C07_str_total`, `C07_str_known_total` : `str(matcher)` is total (table of `__str__` resolutions read from the tree)
 * `C07_describe_total`, `C07_mismatch_error_str_total` : `describe()`, `get_details()`, `str(MismatchError)` are total
 * `C07_predicate_mismatch_built`  : a well-formed `MatchesPredicate` returns its Mismatch for every matchee (tuples too)
 * `C07_assertThat_iff`, `C07_expectThat`, `C07_expectThat_fails` (a failed expectation fails the test whatever the
@@ -1066,6 +1066,18 @@ theorem C07_predicate_mismatch_built (sel : Bool) (id : Nat) (dom : List V) (res
     matchImpl sel (.leaf (.predicate id .one dom res)) v = .mismatch := by
   simp [matchImpl, leafImpl, hno, fmtErr]
 
+/-- `str()` of an instance of any class of the table succeeds (no row resolves to `Matcher.__str__`) -/
+theorem C07_str_known_total (cls : String) : strKnown cls = none := by
+  unfold strKnown
+  split
+  · rename_i heq
+    have hmem := List.mem_of_find?_eq_some heq
+    have hall := C07_str_table_ok.1
+    rw [List.all_eq_true] at hall
+    have := hall _ hmem
+    simp at this
+  · rfl
+
 /-- The executable specification holds of the model's trace, for every input. -/
 theorem holds_model (i : Input) : holds i (model i) = true := by
   simp only [holds, clauses, List.all_cons, List.all_nil, Bool.and_true, Bool.and_eq_true]
@@ -1099,6 +1111,9 @@ theorem holds_model (i : Input) : holds i (model i) = true := by
     | true =>
       rw [C07_text_repr_roundtrip b _ ml s ((validText_iff b s).mp hvt)]
       simp
+  | ctor cls row variant matchee annotated verbose =>
+    refine ⟨?_, rfl, rfl, rfl, rfl, rfl, rfl, rfl⟩
+    simp [cStrTotal, model, C07_str_known_total]
   | assert a =>
     refine ⟨rfl, rfl, rfl, rfl, rfl, ?_, ?_, ?_⟩
     · simp only [cRaisesIff, model, assertModel]
